@@ -193,3 +193,79 @@ func assumptionsFor(prop string) []string {
 }
 
 var propAssumptions = map[string][]string{}
+
+// ---------------------------------------------------------------------------
+// sweep replays: confirmation of abstract (UF-level) counterexamples by a fixed
+// constructive-family differential test against the math/big reference model.
+
+type sweepResult struct {
+	ok  bool
+	out string
+}
+
+var sweepCache = map[string]sweepResult{}
+
+func sweepReplay(tmpl, testName, rel, cfg, dir string) (bool, string) {
+	ck := tmpl + "|" + cfg
+	if r, ok := sweepCache[ck]; ok {
+		os.WriteFile(filepath.Join(dir, "output.txt"), []byte(r.out), 0o644)
+		return r.ok, r.out
+	}
+	pkgName := pkgNameOfDir(rel)
+	or, err := os.ReadFile("/verif/oracle/oracle.go.tmpl")
+	if err != nil {
+		return false, err.Error()
+	}
+	orPath := filepath.Join(dir, "zz_verif_oracle_test.go")
+	os.WriteFile(orPath, []byte(strings.Replace(string(or), "package PKG", "package "+pkgName, 1)), 0o644)
+	tb, err := os.ReadFile(filepath.Join("/verif/oracle", tmpl))
+	if err != nil {
+		return false, err.Error()
+	}
+	tPath := filepath.Join(dir, "zz_verif_sweep_test.go")
+	os.WriteFile(tPath, tb, 0o644)
+	repl := map[string]string{
+		filepath.Join(repoDir, rel, "zz_verif_oracle_test.go"): orPath,
+		filepath.Join(repoDir, rel, "zz_verif_sweep_test.go"):  tPath,
+	}
+	ovb, _ := json.MarshalIndent(map[string]interface{}{"Replace": repl}, "", " ")
+	ovPath := filepath.Join(dir, "overlay.json")
+	os.WriteFile(ovPath, ovb, 0o644)
+	bc := buildConfigs[cfg]
+	args := []string{"test", "-vet=off", "-count=1", "-run", "^" + testName + "$", "-v", "-overlay", ovPath}
+	if bc.Tags != "" {
+		args = append(args, "-tags", bc.Tags)
+	}
+	args = append(args, "./"+rel)
+	sh := fmt.Sprintf("#!/bin/sh\n# differential sweep of the real API against the math/big reference predicate\ncd /repo && GOFLAGS=-mod=mod GOPROXY=off GOSUMDB=off GOTOOLCHAIN=local %s go %s\n", goarchEnv(bc), strings.Join(args, " "))
+	os.WriteFile(filepath.Join(dir, "run.sh"), []byte(sh), 0o755)
+	out, _ := runGo(bc, args, 15*time.Minute)
+	os.WriteFile(filepath.Join(dir, "output.txt"), []byte(out), 0o644)
+	res := sweepResult{ok: strings.Contains(out, "REPLAY-CONFIRMED"), out: out}
+	if i := strings.Index(out, "REPLAY-CONFIRMED"); i >= 0 {
+		res.out = out[i:]
+	}
+	sweepCache[ck] = res
+	return res.ok, res.out
+}
+
+func verifySweepReplayer(prop string, ob *Obligation, cfg string, dir string) (bool, string, string) {
+	ok, out := sweepReplay("verify_sweep_test.go.tmpl", "TestVerifSweep", "", cfg, dir)
+	desc := fmt.Sprintf("%s: solver found an interpretation violating \"%s\" (%s); confirmed on the real API: %s", ob.Harness, ob.Msg, ob.Pos, firstLines(out, 5))
+	return ok, desc, firstLines(out, 3)
+}
+
+func signSweepReplayer(prop string, ob *Obligation, cfg string, dir string) (bool, string, string) {
+	ok, out := sweepReplay("sign_sweep_test.go.tmpl", "TestVerifSignSweep", "", cfg, dir)
+	desc := fmt.Sprintf("%s: solver found an interpretation violating \"%s\" (%s); confirmed on the real API: %s", ob.Harness, ob.Msg, ob.Pos, firstLines(out, 5))
+	return ok, desc, firstLines(out, 3)
+}
+
+func init() {
+	for _, p := range []string{"vh_C01_", "vh_C05_", "vh_C04_verify", "vh_C09_api"} {
+		customReplayers[p] = verifySweepReplayer
+	}
+	for _, p := range []string{"vh_C02_"} {
+		customReplayers[p] = signSweepReplayer
+	}
+}
